@@ -135,7 +135,7 @@ class Report(object):
         os.makedirs(os.path.join(OUTDIR, 'replays'), exist_ok=True)
         for v in unknown[:MAXV]:
             if isinstance(v.case, dict) and v.case.get('_session'):
-                v.case = shrink_session('vp.checks.%s' % self.prop.lower(), 'run_case', v.case, v.sig)
+                v.case = shrink_session(*(runner_for(self.prop, v.case) + (v.case, v.sig)))
                 if v.case.get('_session'):
                     v.msg += ' [only after %d earlier case(s) in the same process: %s]' % (
                         len(v.case['_session']), short(v.case['_session'][-1], 160))
@@ -265,16 +265,23 @@ def _call_chunk_isolated(args):
 
 def _call_session(args):
     modname, fname, cases = args
-    fn = getattr(importlib.import_module(modname), fname)
     res = None
     for c in cases:
-        res = fn(c)
+        m, f = (('vp.pairs', 'run_case') if isinstance(c, dict) and 'pair' in c else (modname, fname))
+        res = getattr(importlib.import_module(m), f)(c)
     return res
 
 
 def run_isolated(modname, fname, cases):
     """Run fn over `cases` one after the other in one freshly forked process; the result of the last one."""
     return _in_child(_call_session, (modname, fname, list(cases)))
+
+
+def runner_for(prop, case):
+    """(module, function) that executes `case` of property `prop`: operation pairs (engine E4) have a runner of their own."""
+    if isinstance(case, dict) and 'pair' in case:
+        return 'vp.pairs', 'run_case'
+    return 'vp.checks.%s' % prop.lower(), 'run_case'
 
 
 def shrink_session(modname, fname, case, sig):
